@@ -511,3 +511,11 @@ def run(chk):
     rule_mro(chk)
     rule_safeunicode(chk)
     rule_norecursion(chk)
+    # an action spanning a yield of a decorated generator gets its end message only if close()/throw()
+    # are forwarded into the generator inside its own context
+    from . import c15
+    cvar = c15.rule_ctx(chk)
+    if cvar:
+        gv, resumers = c15.rule_inside(chk, cvar)
+        if resumers and resumers[0] is not c15._wrapper(chk)[1]:
+            c15.rule_transparent(chk, cvar, gv, resumers)
